@@ -8,8 +8,9 @@ cursor, and per block its free capacity (`blockSize - bytes handed out`, which
 is what `HasSpace` of both allocators computes).
 
 Block indices handed to the outside are *absolute* (`released + relative`).
-`free` is the number of blocks the allocator can still hand out
-(`PushBack` fails with UNAVAILABLE when it is 0; a popped block returns to it).
+`free` is the number of blocks the allocator can still hand out (`PushBack` fails with
+UNAVAILABLE when it is 0). A popped block returns to it at once unless a reader or writer still
+holds it (`pins`, the block's use count); then it becomes a zombie until the last pin is dropped.
 
 The four loops of `findBlockWithSpace` carry explicit fuel; `Res.stuck` is what
 running out of fuel means and `BB/Props/C05.lean` proves it unreachable.
@@ -49,6 +50,8 @@ structure St where
   caps : List Nat := []      -- free capacity of every block in the list, oldest first
   free : Nat                 -- blocks the allocator can still hand out
   pushes : Nat := 0          -- successful PushBack calls so far (observable: NewBlock count)
+  pins : List Nat := []      -- one entry (absolute block) per open reader / in-flight writer
+  zombies : List Nat := []   -- blocks popped while pinned: their space is not reusable yet
 deriving Repr
 
 inductive Res (α : Type)
@@ -66,7 +69,10 @@ def resetAlloc (s : St) : St := { s with allocIdx := -1, allocRem := 0 }
 def popFront (s : St) : Option St :=
   match s.caps with
   | [] => none
-  | _ :: rest => some { s with caps := rest, released := s.released + 1, free := s.free + 1 }
+  | _ :: rest =>
+    some { s with caps := rest, released := s.released + 1,
+                  free := s.free + (if s.released ∈ s.pins then 0 else 1),
+                  zombies := if s.released ∈ s.pins then s.released :: s.zombies else s.zombies }
 
 /-- `PushBack`: a fresh, empty block at the end. -/
 def pushBack (c : Cfg) (s : St) : Option St :=
@@ -204,10 +210,22 @@ def put (c : Cfg) (fuelGrow : Nat) (size : Nat) (s : St) : Res (Ticket × St) :=
     match s.caps[idx]? with
     | none => .panic
     | some cap =>
-      .ok (⟨s.released + idx, c.blockSize - cap, size⟩, { s with caps := s.caps.set idx (cap - size) })
+      .ok (⟨s.released + idx, c.blockSize - cap, size⟩,
+           { s with caps := s.caps.set idx (cap - size), pins := (s.released + idx) :: s.pins })
   | .err e s => .err e s
   | .stuck => .stuck
   | .panic => .panic
+
+/-- A reader is opened on a block (`Block.Get`: use count + 1). -/
+def pin (s : St) (blk : Nat) : St := { s with pins := blk :: s.pins }
+
+/-- A reader is closed / a writer finished (`Block.Release`: use count - 1; at zero the space of a
+block that already left the list returns to the allocator). -/
+def unpin (s : St) (blk : Nat) : St :=
+  let pins := s.pins.erase blk
+  if blk ∈ s.pins ∧ blk ∉ pins ∧ blk ∈ s.zombies then
+    { s with pins := pins, zombies := s.zombies.erase blk, free := s.free + 1 }
+  else { s with pins := pins }
 
 /-- The finalizer's check: `absoluteBlockIndex < totalBlocksToBeReleased` ⇒ INTERNAL. -/
 def finalizeOk (s : St) (t : Ticket) : Bool := decide (s.toBeReleased ≤ t.blk)
